@@ -45,7 +45,7 @@ PROPS = {
                 n_trace=dict(quick=200, thorough=2000), n_search=dict(quick=2500, thorough=40000)),
     "C09": dict(trace_gen="C09", oracle="C09", relevant=rel({0: STRUCT, 1: COMP, 9: {1, 2}}),
                 n_trace=dict(quick=160, thorough=1500), n_search=dict(quick=2500, thorough=40000)),
-    "C10": dict(trace_gen="C10", oracle="C10", relevant=rel({3: STRUCT, 4: LAYER | TREE}),
+    "C10": dict(trace_gen="C10", oracle="C10", relevant=rel({3: STRUCT, 4: LAYER | TREE, 14: {1, 2, 3}}), trace_env={"VH_CERT": "1"},
                 n_trace=dict(quick=200, thorough=2000), n_search=dict(quick=1500, thorough=20000)),
     "C11": dict(trace_gen="C11", oracle="C11", relevant=rel({3: STRUCT, 4: LAYER}),
                 n_trace=dict(quick=200, thorough=2000), n_search=dict(quick=3000, thorough=60000)),
@@ -55,12 +55,12 @@ PROPS = {
                 n_trace=dict(quick=160, thorough=1500), n_search=dict(quick=2000, thorough=40000)),
     "C14": dict(trace_gen="C14", oracle="C14", relevant=rel({2: STRUCT, 3: STRUCT, 8: STRUCT}),
                 n_trace=dict(quick=200, thorough=2000), n_search=dict(quick=3000, thorough=60000)),
-    "C15": dict(level="proof"),
+    "C15": dict(level="proof", oracle="C15", n_search=dict(quick=150, thorough=3000), race=True),
     "C16": dict(trace_gen="C16", oracle="C16", relevant=rel({5: POS | STRUCT, 6: XY | SIZE, 9: {1}}),
                 n_trace=dict(quick=200, thorough=2000), n_search=dict(quick=3000, thorough=60000)),
     "C17": dict(trace_gen="C17", oracle="C17", relevant=rel({6: XY | SIZE, 7: ROUTE}),
                 n_trace=dict(quick=160, thorough=1500), n_search=dict(quick=2500, thorough=40000)),
-    "C18": dict(level="proof"),
+    "C18": dict(level="proof", oracle="C18", n_search=dict(quick=600, thorough=20000)),
     "C19": dict(level="proof"),
     "C20": dict(level="proof"),
 }
